@@ -3,7 +3,7 @@ import TunnoxModel.Spec.C17
 /-!
 Line protocol for C17.
 
-case  := `p <proto> lim <L> pre <k> thr <n> (<inst> <nops> (a|r)*)* sch <m> <tid>*`
+case  := `p <proto> lim <L> pre <k> thr <n> (<inst> <nops> (a|r|o)*)*   (a = admission, r = release own, o = admission of another client) sch <m> <tid>*`
 proto := `conn` | `ctrl` | `tun` | `map` | `mapu` | `code` | `mapq`   (the instances of Model/C17; `mapu` = `map` with the limit taken from the user quota)
 obs   := event* `|` item*
 event := `stp.<tid>.<n>` | `blk.<tid>.<n>` | `adm.<tid>.<item>.<victim or ->.<n>` | `ref.<tid>.<dirty>.<n>`
@@ -68,6 +68,7 @@ def parseOps : Nat → List String → Option (List Op × List String)
   | 0, ts => some ([], ts)
   | n + 1, "a" :: ts => do let (ops, rest) ← parseOps n ts; pure (.acquire :: ops, rest)
   | n + 1, "r" :: ts => do let (ops, rest) ← parseOps n ts; pure (.release :: ops, rest)
+  | n + 1, "o" :: ts => do let (ops, rest) ← parseOps n ts; pure (.other :: ops, rest)
   | _, _ => none
 
 def parseThreads : Nat → List String → Option (List (Nat × List Op) × List String)
